@@ -41,7 +41,13 @@ def gen_manifest(rng, kind, n=None, hostile=True):
         if kind == "rpms":
             ops.append(FM.gen_rpms_op(rng, pool))
         elif kind == "modules":
-            ops.append(FM.gen_modules_op(rng))
+            op = FM.gen_modules_op(rng)
+            if ops and rng.random() < 0.4:
+                prev = rng.choice(ops)
+                for k in ("variant", "arch", "uid"):
+                    op["args"][k] = prev["args"][k]
+                op["meta"]["uid_parts"] = prev["meta"]["uid_parts"]
+            ops.append(op)
         else:
             ops.append(FM.gen_extra_op(rng))
     comp = FC.gen_compose(rng, hostile=hostile)
@@ -135,6 +141,17 @@ def entry_point_problems(pms, fmt, obj, t1, tmpdir, main_variant=None):
             via_fileobj = f.read()
         if via_fileobj != t1:
             probs.append("dump(file object) bytes differ from dumps()")
+        # a destination that already exists and is LONGER than what is written now
+        with open(path, "w") as f:
+            f.write(t1 + "\n# stale tail of an earlier, longer file\n" * 3)
+        if main_variant is not None:
+            obj.dump(path, main_variant=main_variant)
+        else:
+            obj.dump(path)
+        with open(path) as f:
+            over = f.read()
+        if over != t1:
+            probs.append("dump(path) over an existing longer file leaves %d bytes instead of %d" % (len(over), len(t1)))
         a = new_object(pms, fmt)
         with open(path) as f:
             a.load(f)
